@@ -110,6 +110,12 @@ void run_case(Tape& t, Stats& st) {
 	bool shapeChanged = false; uint64_t h = hmix(n, dist);
 	for (unsigned i = 0; i < len; ++i) {
 		int sym = next_symbol(dist, n, i, t, state);
+		if ((i & 63) == 17 && (state >> 5) % 3 == 0) {   // a refused call in the middle of the history: afterwards everything goes on as if it had not been made
+			unsigned bad = (state >> 9) % 4 == 0 ? 65535u : (state >> 9) % 4 == 1 ? unsigned(65536 - n) : unsigned(n + (state >> 11) % 3);
+			V_CHECK(guarded([&] { tree.UpdateCodeCount(uint16_t(bad)); }) == Out::Err, "update with out-of-range symbol " << bad << " accepted in mid-history " << ctx);
+			unsigned bcx = 0; V_CHECK(guarded([&] { tree.GetEncodedBitString(uint16_t(bad), bcx); }) == Out::Err, "encoding of out-of-range symbol " << bad << " accepted in mid-history " << ctx);
+			st.cls("mid_history_refusal");
+		}
 		h = hmix(h, uint64_t(sym));
 		tree.UpdateCodeCount(uint16_t(sym));
 		ref.update(sym);
